@@ -78,6 +78,7 @@ package header
 
 //@ iface Getter.GetByHeight(g, ctx, height)
 //@   ensures result1 == nil ==> !result0.IsZero() && result0.Height() == height
+//@   ensures result1 != nil ==> asVerr(result1) == nil
 
 //@ iface Getter.Get(g, ctx, hash)
 //@   ensures result1 == nil ==> !result0.IsZero() && result0.Hash() == hash
@@ -107,3 +108,16 @@ package header
 //@   modifies ghost:storeReads
 //@   ensures storeReads == old(storeReads) + (to - from)
 //@   ensures result1 == nil ==> len(result0) == to - from && forall i int :: 0 <= i && i < len(result0) ==> result0[i] == chainAt(from + i)
+
+// ---- "verified" headers (C03, C15): a header is verified if it is the subjective head or passed
+// Verify against a verified header; the predicate is only ever introduced by the step axiom below.
+//@ predicate verified(h H)
+//@ axiom verified-step: forall t H, u H :: verified(t) && passedVerify(t, u) ==> verified(u)
+
+//@ ghost var storeAppends int -- number of Append calls that reached the inner store
+
+//@ iface Store.Append(s, ctx, headers)
+//@   requires [C03] verified-store: forall i int :: 0 <= i && i < len(headers) ==> verified(headers[i])
+//@   modifies ghost:storeAppends
+//@   ensures storeAppends == old(storeAppends) + 1
+//@   ensures asNonAdj(result) == nil -- the sync package's private error type cannot come out of a store
